@@ -113,23 +113,24 @@ def rules(rep, m):
     cs = m.need("cmb_condition_signal")
     cx = FuncCtx(m, cs)
     cvp = cs.params[0]["name"]
-    fors = [x for x in walk(cs.body) if x["kind"] == "ForStmt"]
-    ind = [c for c in walk(cs.body) if c["kind"] == "CallExpr" and callee_ref(c) is None]
-    if len(fors) != 2 or len(ind) != 1:
-        rep.finding(r3, cs.name, "shape", "expected a scan loop with one predicate call and a removal loop; found %d "
-                    "loops and %d predicate calls" % (len(fors), len(ind)), where=m.rel(cs.where))
+    heap = "&%s->guard" % cvp
+    P = "%s->guard." % cvp
+    preds = [c for c in walk(cs.body) if c["kind"] == "CallExpr" and callee_ref(c) is None
+             and cx.canon(kids(c)[0]).lstrip("*").endswith(".item[1]")]
+    scans = [x for x in walk(cs.body) if x["kind"] == "ForStmt" and preds and any(y is preds[0] for y in walk(x))]
+    if len(preds) != 1 or len(scans) != 1:
+        rep.finding(r3, cs.name, "shape", "expected one scan loop evaluating the stored predicate of each entry; found %d "
+                    "predicate call(s) in %d loop(s)" % (len(preds), len(scans)), where=m.rel(cs.where))
         r3.fail()
     else:
-        scan, rem = fors
+        scan, call = scans[0], preds[0]
         sch = kids(scan)
-        loopvar = None
+        loopvar, start = None, None
         for x in walk(sch[0]):
             if x["kind"] == "VarDecl":
                 loopvar = x["name"]
                 start = int_value(kids(x)[0]) if kids(x) else None
         bound = cx.canon(sch[2])
-        heap = "&%s->guard" % cvp
-        P = "%s->guard." % cvp
         okrange = loopvar is not None and start == 1 and bound == "(%s <= %sheap_count)" % (loopvar, P)
         r3.instance("scan loop: %s from %s while %s" % (loopvar, start, bound))
         if not okrange:
@@ -138,10 +139,10 @@ def rules(rep, m):
             r3.fail()
         else:
             r3.ok()
-        call = ind[0]
         callee = cx.canon(kids(call)[0]).lstrip("*")
         args = [cx.canon(a) for a in kids(call)[1:]]
-        ent = "%sheap[%s].item" % (P, loopvar)
+        entry = "%sheap[%s]" % (P, loopvar)
+        ent = entry + ".item"
         rep.sample({"rule": "R-C13-3", "predicate": callee, "args": args})
         if callee != ent + "[1]" or args != [cvp, ent + "[0]", ent + "[2]"]:
             rep.finding(r3, cs.name, "scan:predicate", "evaluates %s(%s); expected the entry's own predicate with "
@@ -149,52 +150,91 @@ def rules(rep, m):
             r3.fail()
         else:
             r3.ok()
-        # the wake-up and the noted key are inside the 'predicate true' branch of the scan
         ifs = [x for x in walk(scan) if x["kind"] == "IfStmt" and any(y is call for y in walk(kids(x)[0]))]
-        woke = noted = False
-        if len(ifs) == 1 and strip(kids(ifs[0])[0], casts=True) is strip(call, casts=True) or \
-                (len(ifs) == 1 and not cx.canon(kids(ifs[0])[0]).startswith("!")):
-            br = kids(ifs[0])[1]
-            for y in walk(br):
-                if y["kind"] == "CallExpr" and callee_ref(y) == "cmb_event_schedule":
-                    a = [cx.canon(z) for z in kids(y)[1:]]
-                    if a[1] == ent + "[0]" and common.sigval(a[2]) == SIG["CMB_PROCESS_SUCCESS"] and \
-                            a[3] in ("cmb_time()", "sim_time"):
-                        woke = True
-                if y["kind"] == "BinaryOperator" and y.get("opcode") == "=" and \
-                        cx.canon(kids(y)[1]) == "%sheap[%s].key" % (P, loopvar):
-                    noted = render(kids(y)[0])
-            sched_elsewhere = [y for y in walk(cs.body) if y["kind"] == "CallExpr" and callee_ref(y) == "cmb_event_schedule"
-                               and not any(z is y for z in walk(br))]
-        else:
-            sched_elsewhere = []
-        r3.instance("wake-up scheduled in the true branch: %s; key noted: %s" % (woke, bool(noted)))
-        for okk, key, msg in ((woke, "scan:wake", "no success wake-up at the current time for the satisfied entry's process"),
-                              (bool(noted), "scan:note", "the satisfied entry's key is not recorded for removal"),
-                              (not sched_elsewhere, "scan:wake-unsatisfied", "a wake-up is scheduled outside the "
-                               "'predicate true' branch")):
-            if okk:
-                r3.ok()
-            else:
-                rep.finding(r3, cs.name, key, msg, where=m.rel(loc(scan)))
-                r3.fail()
-        # removal loop removes exactly the noted keys from the same heap
-        rcalls = [y for y in walk(rem) if y["kind"] == "CallExpr" and callee_ref(y) in ("cmi_hashheap_remove",
-                                                                                       "cmi_hashheap_cancel")]
-        okrem = False
-        if len(rcalls) == 1 and noted:
-            a = [cx.canon(z) for z in kids(rcalls[0])[1:]]
-            arr = noted.split("[")[0]
-            rb = cx.canon(kids(rem)[2])
-            cntvar = re.search(r"\[(\w+)\+\+\]", noted)
-            okrem = a[0] == heap and render(kids(rcalls[0])[2]).startswith(arr + "[") and \
-                (cntvar is None or rb.endswith("< %s)" % cntvar.group(1)))
-        if not okrem:
-            rep.finding(r3, cs.name, "remove", "the second pass does not remove exactly the recorded keys from the "
-                        "condition's queue", where=m.rel(loc(rem)))
+        br = None
+        if len(ifs) == 1:
+            c0 = cx.canon(kids(ifs[0])[0])
+            neg = c0.startswith("!")
+            br = kids(ifs[0])[2] if (neg and len(kids(ifs[0])) > 2) else (None if neg else kids(ifs[0])[1])
+        if br is None:
+            rep.finding(r3, cs.name, "scan:branch", "cannot find the 'predicate true' branch of the scan", where=m.rel(loc(scan)))
             r3.fail()
         else:
-            r3.ok()
+            inside = lambda n_: any(y is n_ for y in walk(br))
+            # the list of satisfied entries: arrays stored to inside the true branch with data of this entry
+            lists = set()
+            for l, r_, k, n_ in inv.stores(cs):
+                lt = strip(l, casts=True)
+                if lt["kind"] == "ArraySubscriptExpr" and r_ is not None:
+                    base = render(kids(lt)[0])
+                    rv = cx.canon(r_)
+                    if inside(n_) and (rv.startswith(entry) or rv in ("*&" + entry, entry)):
+                        lists.add(base)
+            r3.instance("satisfied entries are recorded in %s" % sorted(lists))
+            if not lists:
+                rep.finding(r3, cs.name, "scan:note", "the satisfied entry is not recorded for waking and removal", where=m.rel(loc(scan)))
+                r3.fail()
+            else:
+                r3.ok()
+            stray = [render(l) for l, r_, k, n_ in inv.stores(cs)
+                     if strip(l, casts=True)["kind"] == "ArraySubscriptExpr" and render(kids(strip(l, casts=True))[0]) in lists
+                     and not inside(n_)]
+            if stray:
+                rep.finding(r3, cs.name, "scan:note-unsatisfied", "the list of satisfied entries is also written outside the "
+                            "'predicate true' branch (%s)" % stray, where=m.rel(loc(scan)))
+                r3.fail()
+            else:
+                r3.ok()
+            def from_list(c):
+                return any(re.match(r"%s\[" % re.escape(a_), c) for a_ in lists)
+            # wake-ups
+            scs = [y for y in walk(cs.body) if y["kind"] == "CallExpr" and callee_ref(y) == "cmb_event_schedule"]
+            okw = bool(scs)
+            for y in scs:
+                a = [cx.canon(z) for z in kids(y)[1:]]
+                subj_raw = render(cx.resolve(kids(y)[2]))
+                good = common.sigval(a[2]) == SIG["CMB_PROCESS_SUCCESS"] and a[3] in ("cmb_time()", "sim_time") and \
+                    a[0] == "wakeup_event_condition"
+                if inside(y):
+                    good = good and a[1] == ent + "[0]"
+                else:
+                    good = good and from_list(subj_raw) and subj_raw.endswith(".item[0]") and inv.in_loop(cs, y)
+                if not good:
+                    okw = False
+                    rep.finding(r3, cs.name, "wake", "schedules (%s) for '%s': every wake-up must go, with the success code at "
+                                "the current time, to the process of an entry whose predicate was found true"
+                                % (", ".join(a[:4]), subj_raw), where=m.rel(loc(y)))
+            r3.instance("wake-ups go to recorded satisfied entries only: %s" % okw)
+            (r3.ok if okw else r3.fail)()
+            if not scs:
+                rep.finding(r3, cs.name, "scan:wake", "no wake-up is scheduled for satisfied entries", where=m.rel(cs.where))
+            # removals
+            rms = [y for y in walk(cs.body) if y["kind"] == "CallExpr" and callee_ref(y) in ("cmi_hashheap_remove", "cmi_hashheap_cancel")]
+            okr = bool(rms)
+            for y in rms:
+                a0 = cx.canon(kids(y)[1])
+                k_raw = render(cx.resolve(kids(y)[2]))
+                if a0 != heap or not from_list(k_raw) or any(z is y for z in walk(scan)) or not inv.in_loop(cs, y):
+                    okr = False
+            r3.instance("exactly the recorded entries are removed, after the scan: %s" % okr)
+            if not okr:
+                rep.finding(r3, cs.name, "remove", "the removal pass does not remove exactly the recorded satisfied entries "
+                            "from the condition's queue after the scan", where=m.rel(cs.where))
+                r3.fail()
+            else:
+                r3.ok()
+            # the second pass runs over the number of recorded entries
+            cnts = {render(kids(n_)[0]) for l, r_, k, n_ in inv.stores(cs) if k in ("++",) and inside(n_)} | \
+                {mm.group(1) for l, r_, k, n_ in inv.stores(cs) for mm in [re.search(r"(\w+)\+\+", render(n_))] if mm and inside(n_)}
+            seconds = [x for x in walk(cs.body) if x["kind"] == "ForStmt" and x is not scan and
+                       any(callee_ref(y) in ("cmi_hashheap_remove", "cmb_event_schedule") for y in walk(x) if y["kind"] == "CallExpr")]
+            okc = bool(seconds) and all(any(cx.canon(kids(x)[2]).endswith("< %s)" % c_) for c_ in cnts) for x in seconds)
+            if not okc:
+                rep.finding(r3, cs.name, "second-pass:range", "the second pass does not run over exactly the recorded entries "
+                            "(counter(s) %s)" % sorted(cnts), where=m.rel(cs.where))
+                r3.fail()
+            else:
+                r3.ok()
 
     # cancel / remove delegate to the guard member with the named process
     r5 = rep.rule("R-C13-5", "condition wait/cancel/remove/subscribe/unsubscribe operate on the condition's own guard "
